@@ -22,6 +22,13 @@ def run(ctx):
 
     # early-decided batches stored as summaries and rebuilt on replay; re-submissions still queued at the decision
     comp_executor.run_templates(ctx, "C01", [comp_executor.gen_large_early, comp_executor.gen_queued_resubmit], 50, 1500)
+    # any batch stored as a summary and rebuilt from its branches in a later invocation: no branch body runs again
+    for i in range(ctx.scale(100, 2500)):
+        sc = comp_executor.gen_scenario0(ctx.rng)
+        sc["ckpt_limit"] = ctx.rng.choice([30, 60, 120])
+        if len(sc["blocks"]) == 1:
+            sc["blocks"].append({"kind": "seq", "actions": [{"a": "wait", "secs": 1}]})
+        comp_executor.one(ctx, "C01", sc, ctx.rng.randrange(1 << 30), component="executor.large")
 
 
 def search(ctx):
